@@ -480,6 +480,24 @@ def live_check(f, doc):
     return None
 
 
+def op_kind(doc, op):
+    kind = op[0]
+    if kind == "set" and not occ(pars(doc)[op[1]], _key(op[2])[0]):
+        kind = "add"
+    if kind not in ("insert", "append", "add", "sort") and not isinstance(op[2], str):
+        kind += "-indexed"
+    return kind
+
+
+def outcome_class(doc, op):
+    k = op_kind(doc, op)
+    if k in ("set", "add", "set-indexed"):
+        k += "/multi-line" if "\n" in op[3] else "/single-line"
+    if not render(doc).endswith("\n"):
+        k += "/unterminated-doc"
+    return k
+
+
 def check_step(f, doc, op):
     """apply op to the live file object f and to the model doc -> (new doc | None, [(sig, expected, observed)])"""
     newf = None
@@ -495,11 +513,7 @@ def check_step(f, doc, op):
     except Exception as e:
         return None, [("doc/%s/raises" % op[0], "no exception", "%s: %s" % (type(e).__name__, e))]
     cands = step(doc, op, newf)
-    kind = op[0]
-    if kind == "set" and not occ(pars(doc)[op[1]], _key(op[2])[0]):
-        kind = "add"
-    if kind not in ("insert", "append", "add", "sort") and not isinstance(op[2], str):
-        kind += "-indexed"
+    kind = op_kind(doc, op)
     unterminated = "" if render(doc).endswith("\n") else "/unterminated-doc"
     nd, why = match(cands, dump, check_step.nl_liberty)
     if nd is None:
@@ -575,7 +589,7 @@ def explore(part, spec, ops_fn, tree_depth, graph_depth, nl_liberty, base_case, 
                 for sig, exp, obs in viol:
                     part.violation(sig, dict(base_case, history=h2), exp, obs, rank=len(h2))
                 continue
-            part.outcomes[op[0]] += 1
+            part.outcomes[outcome_class(doc, op)] += 1
             seen.add(repr(to_spec(nd)))
             if len(h2) < tree_depth:
                 rec(h2, nd)
@@ -601,7 +615,7 @@ def explore(part, spec, ops_fn, tree_depth, graph_depth, nl_liberty, base_case, 
                         for sig, exp, obs in viol:
                             part.violation(sig, dict(base_case, history=h2), exp, obs, rank=len(h2))
                         continue
-                    part.outcomes[op[0]] += 1
+                    part.outcomes[outcome_class(doc, op)] += 1
                     k = repr(to_spec(nd))
                     if k not in gseen:
                         gseen.add(k)
